@@ -114,7 +114,9 @@ def compare(proc, sv, B, W, ref, got, tol, label, call_objective=0.0):
         Wm = np.ones_like(B) if W is None else np.broadcast_to(np.asarray(W, dtype=float), B.shape)
         e_r = np.linalg.norm(Wm * (Br - B), axis=1)
         e_g = np.linalg.norm(Wm * (Bg - B), axis=1)
-        check(np.all(e_g <= e_r + 2e-3 + tol * 3), f"{label}:fit-quality-differs", f"minimize: capture error {e_g.tolist()} vs {e_r.tolist()} for batch_size=1")
+        # (stacked with a far out-of-gamut row the conic solver's accuracy refers to the scale of the whole call, as for the gaussian fit)
+        stack_tol = 3.0 * float(np.sqrt(1e-9 * (1.0 + max(float(np.sum((Wm * (Br - B)) ** 2)), call_objective))))
+        check(np.all(e_g <= e_r + 2e-3 + tol * 3 + stack_tol), f"{label}:fit-quality-differs", f"minimize: capture error {e_g.tolist()} vs {e_r.tolist()} for batch_size=1")
         v_r, v_g = minimize_variance_value(sv, Xr), minimize_variance_value(sv, Xg)
         check(np.all(np.abs(v_r - v_g) <= (tol * 5 + 2e-2) * (1 + np.abs(v_r))), f"{label}:variance-differs",
               f"minimize: summed variance {v_g.tolist()} vs {v_r.tolist()} for batch_size=1")
@@ -257,16 +259,20 @@ def body_gen(case):
     with calling(f"{proc}(batch_size={bs!r}, n_samples={B2.shape[0]}, rows {op}, layout {case.get('layout')}, entry {entry}, verbose={vb})"):
         # verbose=1 iterates through a progress bar (silenced through TQDM_DISABLE): only the display may differ
         got = run_proc(proc, sv, B2, W2, bs, dict(opt, verbose=1) if vb else opt, entry=entry)
+    # the accuracy of every row inside the call is the one of the whole call: its objective includes all rows' residuals (also the
+    # appended / duplicated row's, which is not among the compared ones)
+    Wc_ = np.ones_like(B2) if W2 is None else np.asarray(W2, dtype=float)
+    call_obj = float(np.sum((Wc_ * (np.asarray(got[1], dtype=float) - B2)) ** 2)) if np.shape(got[1]) == B2.shape else 0.0
     if op == "append":
         got_cmp = (got[0][:n], got[1][:n])
         check(got[0].shape[0] == n + 1, "gen:shape", f"{got[0].shape[0]} result rows for {n + 1} targets")
-        compare(proc, sv, B, W, ref, got_cmp, tol, "gen")
+        compare(proc, sv, B, W, ref, got_cmp, tol, "gen", call_objective=call_obj)
     elif op == "duplicate" and W2 is not None:
         keep = slice(0, len(idx) - 1)
-        compare(proc, sv, B2[keep], W2[keep], (ref[0][idx[:-1]], ref[1][idx[:-1]]), (got[0][keep], got[1][keep]), tol, "gen")
+        compare(proc, sv, B2[keep], W2[keep], (ref[0][idx[:-1]], ref[1][idx[:-1]]), (got[0][keep], got[1][keep]), tol, "gen", call_objective=call_obj)
     else:
         ref_cmp = (ref[0][idx], ref[1][idx])
-        compare(proc, sv, B2, W2, ref_cmp, got, tol, "gen")
+        compare(proc, sv, B2, W2, ref_cmp, got, tol, "gen", call_objective=call_obj)
     # the last row fitted alone (with its own weights): a row's result depends on nothing else in the call
     if B2.shape[0] > 1:
         try:
@@ -274,10 +280,7 @@ def body_gen(case):
         except Exception as e:
             sfx = ":explicit-solver-unconverged" if (type(e).__name__ == "SolverError" and "solver" in opt) else ""
             raise Violation(f"gen:reference-exception:{type(e).__name__}{sfx}", f"{proc} on a single row raised {type(e).__name__}: {str(e)[:200]}")
-        # (the accuracy of the row inside the call is the one of the whole call: its objective includes the other rows' residuals)
-        Wc_ = np.ones_like(B2) if W2 is None else np.asarray(W2, dtype=float)
-        compare(proc, sv, B2[-1:], None if W2 is None else W2[-1:], alone, (got[0][-1:], got[1][-1:]), tol, "gen:alone",
-                call_objective=float(np.sum((Wc_ * (np.asarray(got[1], dtype=float) - B2)) ** 2)))
+        compare(proc, sv, B2[-1:], None if W2 is None else W2[-1:], alone, (got[0][-1:], got[1][-1:]), tol, "gen:alone", call_objective=call_obj)
     labs = sv.labels() + [proc, f"op:{op}", "W" if W is not None else "noW", f"layout:{case.get('layout')}", f"entry:{entry}", f"verbose:{vb}"]
     m = B2.shape[0]
     bsi = m if bs == "full" else (1 if bs is None else bs)
